@@ -63,7 +63,10 @@ def check(rep, an, tier):
         F.qty(rep, res, entry, allow=allow, subs=("mismatch", "literal"))
         R.rule_type_errors(rep, res, "SHAPE", "R-SHAPE", entry)
         R.rule_purity(rep, res, entry)
+        R.rule_index_space(rep, res, entry)
         R.rule_no_global_state(rep, res, entry)
+        R.rule_dtype(rep, res, entry)
+        vertex_tolerances(rep, res, entry)
         # the vertex cloud depends on the bounds, A, K, baseline
         for ev in res.events("membership_call")[:1]:
             d = ev.d["P"].flat().data
@@ -95,12 +98,31 @@ def check(rep, an, tier):
                     CC.zero_rows(rep, res, ent)
                 CC.dim1(rep, res, ent)
                 R.rule_purity(rep, res, ent)
+                R.rule_index_space(rep, res, ent)
                 F.qty(rep, res, ent, allow=allow, subs=("mismatch", "literal"))
                 R.rule_effect_free(rep, res, ent, reg=_reg(an))
     rep.require("R-QTY", 10)
     rep.require("R-FLOW", 30)
     rep.require("R-FORWARD", 20)
     rep.require("R-PURITY", 4)
+
+
+def vertex_tolerances(rep, res, entry):
+    """the gamut's vertices are built from the bounds and the capture matrix at every scale: no absolute tolerance decides which
+    sources / corners take part (only the residual test of the fallback path is a tolerance, and it has its own rule)"""
+    seen = set()
+    for ev in res.events("abs_tolerance"):
+        if not ev.d.get("dimensioned") or not any("get_P_from_A" in q for q in ev.path):
+            continue
+        at = ev.d.get("atol")
+        if (at is not None and at.known and at.const == 0) or (ev.loc, ev.text()) in seen:
+            continue
+        seen.add((ev.loc, ev.text()))
+        rep.violated("R-VALUE", "no absolute tolerance shapes the gamut's vertex set", where=ev.loc, construct=ev.text(), entry=entry,
+                     config=res.config,
+                     msg="an absolute tolerance on bounds / captures (quantities with physical units) decides which corners are built: for "
+                         "bounds in small units (ub − lb ≲ 1e-8) sources count as pinned, the gamut collapses and captures produced by "
+                         "in-bound intensities are reported out of gamut")
 
 
 def solver_residual_tolerance(rep, res, entry):
